@@ -24,8 +24,18 @@
 //  * normalised component r_i = fl(x_i / l), l = |v|(1+lambda), |lambda| <= K_len*u: error
 //    <= K_len ulp + 0.5 ulp  => K_comp = K_len + 1 ulp of x_i/|v| (denorm_min grid below min).
 //  * | ||r|| - 1 | <= (K_len+1)u + u  <= 2.82 eps  <  4 eps  (the design's constant).
+//  * length2() = fl(sum fl(x_i^2)): n products and n-1 additions of non-negative terms, each (1+d), |d| <= u
+//    => relative error <= (1+u)^n - 1 < n*u*(1+2^-10); a product that underflows adds <= denorm_min/2 absolutely.
 // None of these constants was adjusted after looking at a run; the worst observed ratios are recorded
 // with note_max.
+//
+// Domain (audit2 C08 S2).  The statement quantifies over vectors "whose squared components do not overflow"; the
+// judged domain is: the floating-point sum of squares provably stays finite, i.e.
+//     exact sum x_i^2 * (1 + N*eps) <= max      (every rounding of the n products / n-1 additions is <= 1+u), or
+//     a single non-zero component with x^2 <= max (one rounding: finite up to the largest value <= sqrt(max)).
+// The DESIGN/quantifier domain |c| <= sqrt(max)/2 is kept verbatim as a third alternative (it was judged before; for
+// N = 4 with every component at the top its sum is exactly max and only the factor 1+N*eps is missing).  Together
+// they reach single components up to the largest value <= sqrt(max) and pairs (c, c*2^-k) close to it.
 #include "../engine/exact.hpp"
 #include "../engine/report.hpp"
 #include "c08_alpha.hpp"
@@ -67,7 +77,8 @@ static inline double capped (long double e) { return (e == e && e < 1e30L) ? (do
 
 struct Tally
 {
-    long long states = 0, transitions = 0, skipped_domain = 0;
+    long long states = 0, transitions = 0, skipped_domain = 0, beyond_narrow = 0, c_recip_overflows = 0;
+    double    w_len2 = 0;
     long long c_scaled = 0, c_direct_generic = 0, c_direct_underflowing_square = 0, c_switch_window = 0, c_subnormal_norm = 0,
               c_zero = 0, c_single = 0, c_negzero = 0, c_mixed_far = 0;
     double    w_len_direct = 0, w_len_scaled = 0, w_unit = 0, w_comp = 0;
@@ -115,7 +126,13 @@ template <class T, int N> struct Checker
             else if (std::signbit (c[i])) ++negzero;
             if (c[i] != 0 && a * a < tmin) ++sq_under;
         }
-        if (amax > dom_max) { ++t.skipped_domain; return; }
+        // judged domain: see the header comment (the old predicate |c| <= sqrt(max)/2 is a subset and kept verbatim)
+        if (amax > dom_max)
+        {
+            const bool single_ok = nz == 1 && s <= tmax;
+            if (!(single_ok || s * (1 + N * (long double) std::numeric_limits<T>::epsilon ()) <= tmax)) { ++t.skipped_domain; return; }
+            ++t.beyond_narrow;
+        }
         ++t.states;
         const long double want   = sqrtl (s);
         const bool        zero   = (nz == 0);
@@ -167,6 +184,13 @@ template <class T, int N> struct Checker
             if (!ex::same (l2, d)) C0X_FAIL (pfx + "::length2.eq-dot", (show<T, N> (c)), Msg () << d, Msg () << l2);
             T op = v ^ v;
             if (!ex::same (l2, op)) C0X_FAIL (pfx + "::length2.eq-operator^", (show<T, N> (c)), Msg () << op, Msg () << l2);
+            // ... and the dot product of the vector with itself is sum x_i^2 (independent of dot()): N*u relative, plus
+            // denorm_min/2 for each of the N products that may underflow
+            const long double u = ex::eps<T> () / 2, tol = N * u * s * (1 + ldexpl (1, -10)) + N * (long double) std::numeric_limits<T>::denorm_min () / 2;
+            const long double e2 = fabsl ((long double) l2 - s);
+            if (!(e2 <= tol))
+                C0X_FAIL (pfx + "::length2.accuracy-vs-exact-sum-of-squares", (show<T, N> (c)), Msg () << "sum x_i^2 = " << s << " +- " << tol, Msg () << l2);
+            else if (tol > 0 && capped (e2 / tol) > t.w_len2) t.w_len2 = capped (e2 / tol);
         }
         // ---- the normalisation family
         V r = v.normalized ();
@@ -203,7 +227,15 @@ template <class T, int N> struct Checker
                 C0X_FAIL (pfx + "::normalizeExc.throws-on-nonzero", (show<T, N> (c)), "no exception", "exception");
             }
         }
-        if (want < tmin) return; // the property promises the unit-vector relations only for a normal norm
+        if (want < tmin)
+        {   // the property promises the unit-vector relations only for a normal norm, but "never NaN or infinity" for every
+            // vector of the domain.  This is where dividing by length() differs observably from multiplying by 1/length():
+            // 1/l is finite for every normal l and overflows for l < 1/max.
+            if (want * tmax < 1) ++t.c_recip_overflows;
+            for (int i = 0; i < N; ++i)
+                if (!std::isfinite (r[i])) { C0X_FAIL (pfx + "::normalized.nonfinite.subnormal-norm", (show<T, N> (c)), "finite components", showv (r)); break; }
+            return;
+        }
         // never NaN / inf
         bool finite = true;
         for (int i = 0; i < N; ++i)
@@ -239,12 +271,16 @@ template <class T, int N> struct Checker
         }
     }
 
+    static std::string d0 () { return std::string ("Vec") + char ('0' + N) + "."; }
     void merge (const Tally& t) const
     {
         R ().add ("states", t.states);
         R ().add ("evaluations", t.states);
         R ().add ("transitions", t.transitions);
-        R ().add ("skipped_outside_domain(|c|>sqrt(max)/2)", t.skipped_domain);
+        R ().add ("skipped_outside_domain(float sum of squares may overflow)", t.skipped_domain);
+        R ().cls (d0 () + "beyond-sqrt(max)/2-but-sum-of-squares-finite", t.beyond_narrow);
+        R ().cls (d0 () + "subnormal-norm.reciprocal-of-norm-overflows(norm<1/max)", t.c_recip_overflows);
+        R ().note_max (pfx + " worst length2() error / (N u sum) bound", t.w_len2);
         std::string d = std::string ("Vec") + char ('0' + N) + ".";
         R ().cls (d + "scaled-path(sumsq<2min)", t.c_scaled);
         R ().cls (d + "direct-path.generic", t.c_direct_generic);
@@ -266,7 +302,8 @@ static void fold (Tally& a, const Tally& b)
     a.states += b.states; a.transitions += b.transitions; a.skipped_domain += b.skipped_domain;
     a.c_scaled += b.c_scaled; a.c_direct_generic += b.c_direct_generic; a.c_direct_underflowing_square += b.c_direct_underflowing_square;
     a.c_switch_window += b.c_switch_window; a.c_subnormal_norm += b.c_subnormal_norm; a.c_zero += b.c_zero; a.c_single += b.c_single;
-    a.c_negzero += b.c_negzero; a.c_mixed_far += b.c_mixed_far;
+    a.c_negzero += b.c_negzero; a.c_mixed_far += b.c_mixed_far; a.beyond_narrow += b.beyond_narrow; a.c_recip_overflows += b.c_recip_overflows;
+    a.w_len2 = std::max (a.w_len2, b.w_len2);
     a.w_len_direct = std::max (a.w_len_direct, b.w_len_direct); a.w_len_scaled = std::max (a.w_len_scaled, b.w_len_scaled);
     a.w_unit = std::max (a.w_unit, b.w_unit); a.w_comp = std::max (a.w_comp, b.w_comp);
 }
@@ -375,7 +412,7 @@ int main (int argc, char** argv)
     R ().property = "C08";
     R ().parse (argc, argv);
     R ().assume ("long double has a 64-bit significand and 15-bit exponent (x86-64): sum of squares and sqrtl are accurate to 2^-62 over the whole double range");
-    R ().assume ("domain of the property: finite components with |c| <= sqrt(max)/2; tuples outside are enumerated but not judged (counted separately)");
+    R ().assume ("domain of the property: finite components whose floating-point sum of squares provably stays finite (exact sum*(1+N eps) <= max, or a single component with x^2 <= max; contains |c| <= sqrt(max)/2); tuples outside are enumerated but not judged (counted separately)");
     const bool th = R ().thorough ();
     const std::vector<int> M4 = {0, 1, 2, 3}, M2 = {2, 3}, M1 = {3};
 
